@@ -282,17 +282,27 @@ def rule_rescale(ctx):
     r = RuleResult("C19-RESCALE", "gather_slices rescales before stacking", 2)
     f = ctx.p.func(C.CORE, "ContractionTree.gather_slices")
     fl = ctx.flow(f)
-    stack_nodes, rescale, emax_ret = [], None, None
+    # the stacking step: a call of the nested function that calls do("stack", ...)
+    stackers = {nf.name for nf in ctx.p.nested_funcs(f)
+                if any(isinstance(x, ast.Constant) and x.value == "stack"
+                       for x in ast.walk(nf.node))}
+    stack_nodes, rescale, emax_name = [], None, None
     for n in fl.cfg.nodes:
         if n.kind != "stmt" or n.ast is None:
             continue
-        txt = ast.unparse(n.ast)
-        if isinstance(n.ast, ast.Assign) and "recursively_stack_chunks(" in txt:
+        st = n.ast
+        if isinstance(st, ast.Assign) and isinstance(st.value, ast.Call) and \
+                dotted(st.value.func) in stackers:
             stack_nodes.append(n)
-        if isinstance(n.ast, ast.Assign) and "emax" in txt and "**" in txt and "chunks" in txt:
-            rescale = n
-        if isinstance(n.ast, ast.Return) and isinstance(n.ast.value, ast.Tuple) and "emax" in txt:
-            emax_ret = n
+        # rescale: a dict rebuilt with values  m * 10 ** (e - E)
+        if isinstance(st, ast.Assign) and isinstance(st.value, ast.DictComp):
+            pw = [x for x in ast.walk(st.value.value) if isinstance(x, ast.BinOp)
+                  and isinstance(x.op, ast.Pow) and isinstance(x.left, ast.Constant)
+                  and x.left.value == 10 and isinstance(x.right, ast.BinOp)
+                  and isinstance(x.right.op, ast.Sub) and isinstance(x.right.right, ast.Name)]
+            if pw:
+                rescale = n
+                emax_name = pw[0].right.right.id
     C.require(stack_nodes, "stacking step of gather_slices not recognised")
     key = ctx.key(f, "C19-RESCALE", "order")
     if rescale is None:
@@ -302,22 +312,29 @@ def rule_rescale(ctx):
         ifn = f.module.parents.get(rescale.ast)
         istup = isinstance(ifn, ast.If) and "isinstance" in ast.unparse(ifn.test) and \
             "tuple" in ast.unparse(ifn.test)
-        before = all(s.id in fl.cfg.reachable_from_succs(rescale.id) and
-                     rescale.id not in fl.cfg.reachable_from_succs(s.id) for s in stack_nodes)
-        if istup and before:
-            r.ok(key, C.loc(f, rescale.ast), "tuple chunks are rescaled to emax before the stack")
+        la = ctx.r.local_assignments(f).get(emax_name, [])
+        is_max = any(isinstance(v, ast.Call) and dotted(v.func) == "max" for v in la)
+        before = all(s_.id in fl.cfg.reachable_from_succs(rescale.id) and
+                     rescale.id not in fl.cfg.reachable_from_succs(s_.id) for s_ in stack_nodes)
+        if istup and before and is_max:
+            r.ok(key, C.loc(f, rescale.ast), "tuple chunks are rescaled to the largest exponent "
+                 "before the stack")
         else:
-            r.violation(key, C.loc(f, rescale.ast), "rescale does not precede the stack under the "
-                        "tuple test")
+            r.violation(key, C.loc(f, rescale.ast), "rescale to the largest exponent does not "
+                        "precede the stack under the tuple test")
     key2 = ctx.key(f, "C19-RESCALE", "emax-returned")
-    if emax_ret is None:
+    rets = [n for n in fl.returns() if isinstance(n.ast.value, ast.Tuple)
+            and len(n.ast.value.elts) == 2 and isinstance(n.ast.value.elts[1], ast.Name)
+            and n.ast.value.elts[1].id == emax_name]
+    if rescale is None or not rets:
         r.violation(key2, f.loc, "the common exponent is not returned with the stacked result")
     else:
-        g = [C.unparse(i.test) for i, t in C.enclosing_ifs(f, emax_ret.ast) if t]
-        if any("emax is not None" in x for x in g):
-            r.ok(key2, C.loc(f, emax_ret.ast), "emax returned iff chunks were tuples")
+        g = [C.unparse(i.test) for i, t in C.enclosing_ifs(f, rets[0].ast) if t]
+        if any(x == f"{emax_name} is not None" for x in g):
+            r.ok(key2, C.loc(f, rets[0].ast), "common exponent returned iff chunks were tuples")
         else:
-            r.violation(key2, C.loc(f, emax_ret.ast), "emax return is not guarded by the rescale")
+            r.violation(key2, C.loc(f, rets[0].ast), "the exponent return is not guarded by the "
+                        "rescale")
     return r
 
 
